@@ -247,7 +247,9 @@ func vary(t *rapid.T, groups []opGroup, target val.V) ([]opGroup, string) {
 		out = append(out, groups[gi+1:]...)
 		return out, "duplicate-hunk"
 	case 8: // an index token written as a number that is not an RFC 6901 array index
-		ops := g.all()
+		// (only on the edit ops: a context test must name an element next to
+		// the edit position, otherwise the patch leaves the supported subset)
+		ops := append(append([]map[string]val.V{}, g.pairs...), g.adds...)
 		if len(ops) > 0 {
 			op := ops[gen.Int(t, "whichOp", 0, len(ops)-1)]
 			prefix, tok := lastToken(op["path"].(string))
@@ -255,6 +257,13 @@ func vary(t *rapid.T, groups []opGroup, target val.V) ([]opGroup, string) {
 				op["path"] = prefix + "/" + tok + gen.Pick(t, "oddSuffix", []string{".0", "e0", ".5", "E0", "_0"})
 				if gen.Chance(t, "leadingZero", 20) {
 					op["path"] = prefix + "/0" + tok
+				}
+				if gen.Chance(t, "dashInside", 30) {
+					// "-" where an element has to be named, followed by more tokens
+					op["path"] = prefix + "/-/" + tok
+					if gen.Chance(t, "dashKey", 50) {
+						op["path"] = prefix + "/-/x"
+					}
 				}
 				return groups, "odd-index-token"
 			}
